@@ -57,6 +57,18 @@ fn gen_mixed(rng: &Rng, pool: &Pool, depth: usize, big: bool) -> (Vec<Ent>, Vec<
             without.push(e);
         }
     }
+    // an eligible `._<name>` next to an eligible `<name>` (and sometimes on its own)
+    if rng.chance(1, 5) {
+        let n = match with.first() {
+            Some(Ent::File { name, .. }) if rng.chance(3, 4) => format!("._{}", name),
+            _ => "._Lonely.sol".to_string(),
+        };
+        if used.insert(n.clone()) {
+            let e = Ent::File { name: n, bytes: rng.pick(&pool.progs).1.clone().into_bytes() };
+            with.push(e.clone());
+            without.push(e);
+        }
+    }
     for _ in 0..rng.range(0, 4) {
         let mut n = rng.ps(&INELIGIBLE_NAMES).to_string();
         if rng.chance(1, 10) {
